@@ -15,6 +15,7 @@ import (
 	"encoding/json"
 	"fmt"
 	"io"
+	"math"
 	"net/http"
 	"net/http/httptest"
 	"runtime"
@@ -113,6 +114,11 @@ type rootsLister interface {
 
 const resourceURIs = 3
 
+// vocabText: a text payload full of JSON-RPC vocabulary (the client must treat it as data).
+func vocabText(n string) string {
+	return fmt.Sprintf(`{"jsonrpc":"2.0","method":"notifications/message","id":1,"params":{"method":%q},"result":{"method":"x"},"error":{"code":-32603,"message":"method"}} "method": "id": %s`, n, n)
+}
+
 // richRegister puts the scenario handlers on a real server of any kind.
 func richRegister(srv any, g *gates, hc *handlerCount) {
 	lister, _ := srv.(rootsLister)
@@ -166,6 +172,47 @@ func richRegister(srv any, g *gates, hc *handlerCount) {
 		g.wait("~gate:mix")
 		return mcp.TextResourceContents{URI: req.Params.URI, MIMEType: "text/plain", Text: "res:" + req.Params.URI}, nil
 	}
+	// JSON-RPC vocabulary as keys and values of a result, at several depths, and as property names of a tool's schema
+	vocabulary := func(ctx context.Context, req *mcp.CallToolRequest) (*mcp.CallToolResult, error) {
+		n, _ := req.Params.Arguments["nonce"].(string)
+		hc.hit(n)
+		return &mcp.CallToolResult{
+			Content: []mcp.Content{mcp.NewTextContent(vocabText(n))},
+			StructuredContent: map[string]interface{}{
+				"method": "notifications/message", "id": 7, "jsonrpc": "2.0", "params": map[string]interface{}{"method": n, "id": "x"},
+				"result": map[string]interface{}{"error": map[string]interface{}{"code": -32000, "message": "method"}, "method": []interface{}{"method", map[string]interface{}{"method": n}}},
+				"error":  nil,
+			},
+		}, nil
+	}
+	tVocab := mcp.NewTool("vocabulary", mcp.WithString("nonce"), mcp.WithString("method"), mcp.WithString("id"), mcp.WithString("jsonrpc"),
+		mcp.WithString("params"), mcp.WithString("result"), mcp.WithString("error"))
+	// handler outcomes of every kind
+	outcome := func(ctx context.Context, req *mcp.CallToolRequest) (*mcp.CallToolResult, error) {
+		n, _ := req.Params.Arguments["nonce"].(string)
+		kind, _ := req.Params.Arguments["kind"].(string)
+		hc.hit(n)
+		switch kind {
+		case "goerr":
+			return nil, fmt.Errorf("handler failed for %s", n)
+		case "iserror":
+			r := mcp.NewTextResult("tool-level error for " + n)
+			r.IsError = true
+			return r, nil
+		case "nan":
+			return &mcp.CallToolResult{Content: []mcp.Content{mcp.NewTextContent(n)}, StructuredContent: map[string]interface{}{"x": math.NaN()}}, nil
+		case "inf":
+			return &mcp.CallToolResult{Content: []mcp.Content{mcp.NewTextContent(n)}, StructuredContent: []float64{math.Inf(1)}}, nil
+		case "chan":
+			return &mcp.CallToolResult{Content: []mcp.Content{mcp.NewTextContent(n)}, StructuredContent: make(chan int)}, nil
+		case "nil":
+			return nil, nil
+		case "nilslices":
+			return &mcp.CallToolResult{}, nil
+		}
+		return mcp.NewTextResult(expectText(n)), nil
+	}
+	tOutcome := mcp.NewTool("outcome", mcp.WithString("nonce"), mcp.WithString("kind"))
 	tEcho := mcp.NewTool("echo", mcp.WithString("nonce"))
 	tRel := mcp.NewTool("release", mcp.WithString("gate"), mcp.WithNumber("want"))
 	tChat := mcp.NewTool("chatty", mcp.WithString("nonce"))
@@ -175,6 +222,8 @@ func richRegister(srv any, g *gates, hc *handlerCount) {
 		s.RegisterTool(tEcho, echo)
 		s.RegisterTool(tRel, release)
 		s.RegisterTool(tChat, chatty)
+		s.RegisterTool(tVocab, vocabulary)
+		s.RegisterTool(tOutcome, outcome)
 		s.RegisterPrompt(p, prompt)
 		for i := 0; i < resourceURIs; i++ {
 			s.RegisterResource(&mcp.Resource{Name: fmt.Sprintf("r%d", i), URI: fmt.Sprintf("verif://r%d", i)}, resource)
@@ -183,6 +232,8 @@ func richRegister(srv any, g *gates, hc *handlerCount) {
 		s.RegisterTool(tEcho, echo)
 		s.RegisterTool(tRel, release)
 		s.RegisterTool(tChat, chatty)
+		s.RegisterTool(tVocab, vocabulary)
+		s.RegisterTool(tOutcome, outcome)
 		s.RegisterPrompt(p, prompt)
 		for i := 0; i < resourceURIs; i++ {
 			s.RegisterResource(&mcp.Resource{Name: fmt.Sprintf("r%d", i), URI: fmt.Sprintf("verif://r%d", i)}, resource)
@@ -191,6 +242,8 @@ func richRegister(srv any, g *gates, hc *handlerCount) {
 		s.RegisterTool(tEcho, echo)
 		s.RegisterTool(tRel, release)
 		s.RegisterTool(tChat, chatty)
+		s.RegisterTool(tVocab, vocabulary)
+		s.RegisterTool(tOutcome, outcome)
 		s.RegisterPrompt(p, prompt)
 		for i := 0; i < resourceURIs; i++ {
 			s.RegisterResource(&mcp.Resource{Name: fmt.Sprintf("r%d", i), URI: fmt.Sprintf("verif://r%d", i)}, resource)
@@ -405,6 +458,20 @@ func (k *richKit) tool(name, nonce string) opRes {
 	return res
 }
 
+// vocab calls the tool whose result is full of JSON-RPC vocabulary.
+func (k *richKit) vocab(nonce string) opRes {
+	ctx, cancel := context.WithTimeout(context.Background(), callCeiling())
+	defer cancel()
+	r, err := k.cl.CallTool(ctx, &mcp.CallToolRequest{Params: mcp.CallToolParams{Name: "vocabulary", Arguments: map[string]interface{}{"nonce": nonce, "method": "tools/call", "id": "9", "jsonrpc": "2.0"}}})
+	res := opRes{what: "vocabulary " + nonce, want: vocabText(nonce), got: textOf(r)}
+	if err != nil {
+		res.err = err.Error()
+	} else if sc, ok := r.StructuredContent.(map[string]interface{}); !ok || sc["method"] != "notifications/message" {
+		res.got = fmt.Sprintf("structuredContent lost or changed: %v", r.StructuredContent)
+	}
+	return res
+}
+
 func (k *richKit) releaseGate(name string, want int) opRes {
 	ctx, cancel := context.WithTimeout(context.Background(), callCeiling())
 	defer cancel()
@@ -476,7 +543,7 @@ func (k *richKit) list(kind string) opRes {
 				names = append(names, t.Name)
 			}
 		}
-		res.want = "chatty,echo,release"
+		res.want = "chatty,echo,outcome,release,vocabulary"
 	case "prompts":
 		var r *mcp.ListPromptsResult
 		r, err = k.cl.ListPrompts(ctx, &mcp.ListPromptsRequest{})
@@ -589,6 +656,9 @@ func runMixed(c *hk.Ctx) {
 		rs = append(rs, rel)
 		rs = append(rs, <-done...)
 		rs = append(rs, k.list("tools"))
+		for i := 0; i < 2; i++ {
+			rs = append(rs, k.vocab(fmt.Sprintf("v%d-%04x", i, c.Rng.Intn(1<<16))))
+		}
 		k.verdicts(c, "mixed", rs, map[string]any{"in_flight_together": "3 tools/call + 2 prompts/get + 2 resources/read (gated), 12 list operations meanwhile"})
 		k.close()
 	}
@@ -699,6 +769,92 @@ func runChatty(c *hk.Ctx) {
 		rs := []opRes{k.releaseGate("chat", len(calls))}
 		rs = append(rs, <-done...)
 		k.verdicts(c, "chatty", rs, map[string]any{"concurrent": fmt.Sprintf("%d calls whose handler issues roots/list and a notification + %d plain calls, released together", n, n)})
+		k.close()
+	}
+}
+
+// errCall runs one real-client operation that the server answers with an error (or with an odd handler outcome): the call must
+// come back by itself — an error naming its own token where the answer echoes one, or a result — and must not run into the ceiling.
+func (k *richKit) errCall(what string, token string, f func(ctx context.Context) error) opRes {
+	ctx, cancel := context.WithTimeout(context.Background(), callCeiling())
+	defer cancel()
+	err := f(ctx)
+	res := opRes{what: what, want: "answered"}
+	switch {
+	case ctx.Err() == context.DeadlineExceeded:
+		degraded.Store(true)
+		res.err = "no answer: " + fmt.Sprint(err)
+	case err != nil && (strings.Contains(err.Error(), "timeout") || strings.Contains(err.Error(), "no final response")):
+		res.err = "no answer: " + err.Error()
+	case token != "" && (err == nil || !strings.Contains(err.Error(), token)):
+		res.got = fmt.Sprintf("an answer that does not name %q: %v", token, err)
+	default:
+		res.got = "answered"
+	}
+	return res
+}
+
+// runErrorsReal: concurrent calls of the real clients that are answered by errors of several classes, and calls whose handler
+// produces every kind of outcome: each call gets exactly its own answer (the error names its own tool / prompt / resource /
+// nonce), none is left without an answer.
+func runErrorsReal(c *hk.Ctx) {
+	for _, tr := range richTransports {
+		k := newRichKit(c, tr)
+		if k == nil {
+			continue
+		}
+		var calls []func() opRes
+		tool := func(name string, args map[string]interface{}) func(ctx context.Context) error {
+			return func(ctx context.Context) error {
+				_, err := k.cl.CallTool(ctx, &mcp.CallToolRequest{Params: mcp.CallToolParams{Name: name, Arguments: args}})
+				return err
+			}
+		}
+		for i := 0; i < 5; i++ {
+			tok := fmt.Sprintf("x%d-%04x", i, c.Rng.Intn(1<<16))
+			calls = append(calls,
+				func() opRes {
+					return k.errCall("tools/call with an empty name", "", tool("", map[string]interface{}{}))
+				},
+				func() opRes {
+					return k.errCall("tools/call nope-"+tok, "nope-"+tok, tool("nope-"+tok, map[string]interface{}{}))
+				},
+				func() opRes {
+					return k.errCall("outcome goerr "+tok, tok, tool("outcome", map[string]interface{}{"nonce": tok, "kind": "goerr"}))
+				},
+				func() opRes {
+					return k.errCall("prompts/get nope-"+tok, "", func(ctx context.Context) error {
+						req := &mcp.GetPromptRequest{}
+						req.Params.Name = "nope-" + tok
+						_, err := k.cl.GetPrompt(ctx, req)
+						if err == nil {
+							return fmt.Errorf("no error for an unknown prompt")
+						}
+						return nil
+					})
+				},
+				func() opRes {
+					return k.errCall("resources/read nope-"+tok, "", func(ctx context.Context) error {
+						req := &mcp.ReadResourceRequest{}
+						req.Params.URI = "verif://nope-" + tok
+						_, err := k.cl.ReadResource(ctx, req)
+						if err == nil {
+							return fmt.Errorf("no error for an unknown resource")
+						}
+						return nil
+					})
+				})
+		}
+		for i, kind := range []string{"iserror", "nan", "inf", "chan", "nil", "nilslices", "ok"} {
+			kind := kind
+			tok := fmt.Sprintf("o%d-%04x", i, c.Rng.Intn(1<<16))
+			calls = append(calls, func() opRes {
+				return k.errCall("outcome "+kind, "", tool("outcome", map[string]interface{}{"nonce": tok, "kind": kind}))
+			})
+		}
+		rs := collect(0, calls...)
+		// errCall reports through got/want; an unknown prompt / resource answered without an error shows up as a Go error there
+		k.verdicts(c, "errors", rs, map[string]any{"concurrent": fmt.Sprintf("%d calls answered by errors or odd handler outcomes, all at once", len(calls))})
 		k.close()
 	}
 }
